@@ -29,7 +29,7 @@ PROP = dict(
     design_ref="DESIGN.md 4.17",
     driver="c17",
     trace=dict(module="TraceStreams", cfg="TraceStreams.cfg"),
-    rule="case = one request (scripted body or nil body; Content-Length positive / zero header / absent, concretised in two "
+    rule="case = one request (any method: POST, GET, HEAD, get, DELETE, OPTIONS, ...; scripted body or nil body; Content-Length positive / zero header / absent, concretised in two "
          "ways each) + one history of HasBody / Read(k) / Close calls + a final drain. Exhaustive part: every transition of the "
          "bounded PeekBody model exported by TLC (GenStreams: contents <=2 (quick) / <=3 (thorough) bytes, <=3/4 chunks, "
          "read sizes {0,1,2,4096}, histories <=4/5 actions). Seeded part: 400/3000 random cases with contents up to 12 KiB, chunk "
